@@ -191,6 +191,16 @@ type factRec struct {
 	syms    []string
 	defines string
 	link    bool // relates two versions of the same heap (rely rules, monotonicity): always kept
+	rel     []string // symbols that decide relevance in the focused variant (nil: syms)
+}
+
+// factG adds the fact guard => body; only the body's symbols count for relevance.
+func (c *VCtx) factG(guard, body *Term) {
+	t := Implies(guard, body)
+	if t.S == "true" {
+		return
+	}
+	c.facts = append(c.facts, factRec{S: t.S, syms: symsOf(t.S), rel: symsOf(body.S)})
 }
 
 // linkFact adds a fact that ties a havocked heap version to its predecessor.
@@ -430,7 +440,11 @@ func (c *VCtx) prove(kind, desc string, guard, goal *Term, vars map[string]strin
 		full.WriteString("(assert " + f + ")\n")
 		if !fr.link && fr.defines == "" && (strings.Contains(f, "(forall ") || strings.Contains(f, "(exists ")) {
 			rel := false
-			for _, s := range fr.syms {
+			rs := fr.rel
+			if rs == nil {
+				rs = fr.syms
+			}
+			for _, s := range rs {
 				if q[s] {
 					rel = true
 					break
